@@ -1,16 +1,31 @@
-"""merge harness/props/Cxx_findings.json entries into known_findings.json (new ids appended, existing ids kept)"""
+"""merge harness/props/Cxx_findings.json entries into known_findings.json.
+New ids are appended; an existing id is REPLACED when the per-property file changed its kind (known -> fixed) or when
+--replace is given. Commit hashes for fixed entries can be supplied as id=hash arguments."""
 import json
 import sys
 from pathlib import Path
 ROOT = Path(__file__).resolve().parent.parent
 k = json.load(open(ROOT / 'known_findings.json'))
-ids = {e['id'] for e in k['findings']}
+commits = dict(a.split('=') for a in sys.argv[1:] if '=' in a)
+replace_all = '--replace' in sys.argv
+idx = {e['id']: i for i, e in enumerate(k['findings'])}
 for fn in sorted((ROOT / 'harness' / 'props').glob('C??_findings.json')):
     f = json.load(open(fn))
-    f = f if isinstance(f, list) else f.get('findings', f)
-    for e in f:
-        if e['id'] not in ids:
+    lst = f if isinstance(f, list) else f.get('findings', f)
+    changed = False
+    for e in lst:
+        if e['id'] in commits:
+            e['commit'] = commits[e['id']]
+            if 'record' in e:
+                e['record'] = e['record'].replace('<commit>', commits[e['id']]).replace('<to be filled by me>', commits[e['id']])
+            changed = True
+        if e['id'] not in idx:
             k['findings'].append(e)
-            ids.add(e['id'])
+            idx[e['id']] = len(k['findings']) - 1
             print('added', e['id'])
+        elif replace_all or k['findings'][idx[e['id']]].get('kind') != e.get('kind') or e['id'] in commits:
+            k['findings'][idx[e['id']]] = e
+            print('replaced', e['id'], e.get('kind'))
+    if changed:
+        json.dump(f, open(fn, 'w'), indent=1)
 json.dump(k, open(ROOT / 'known_findings.json', 'w'), indent=1)
